@@ -614,7 +614,15 @@ def build_unit(name, repo, template_path, overlay_path, twin_false=False, varian
                     hits = rsscan.find_item(items, 'const', nm)
                     if len(hits) != 1:
                         raise Unsupported('const %s in %s: %d matches' % (nm, file, len(hits)))
-                    chunks.append(('toks', lit('pub ', 'T4') + _trim(extract_const(hits[0])), file))
+                    ct = _trim(extract_const(hits[0]))
+                    chunks.append(('toks', (ct if ct and ct[0].text == 'pub' else lit('pub ', 'T4') + ct), file))
+                elif kind == 'consts':
+                    # every top-level `const` of the file (so that a newly introduced constant is seen too)
+                    file = a[2]
+                    for it in _load_items(repo, file, cache):
+                        if it.kind == 'const' and not it.attrs():
+                            ct = _trim(extract_const(it))
+                            chunks.append(('toks', (ct if ct and ct[0].text == 'pub' else lit('pub ', 'T4') + ct), file))
                 elif kind == 'type':
                     file, nm = a[2], a[3]
                     derives = DEFAULT_DERIVES
